@@ -144,8 +144,28 @@ public:
             case 'g': opUpdate(t, static_cast<int>(arg % keyPos_.size()), false); break;
             default: break;
             }
-            s_->trace("return %s", ops[i].c_str());
+            if (s_->tracing()) { s_->trace("return %s", ops[i].c_str()); dump(); }
         }
+    }
+
+    /// trace helper: one line per anchor and the key -> anchor mapping
+    void dump() {
+        Sched::Quiet q(*s_);
+        std::string out;
+        char b[200];
+        for (size_t j = 0; j < keyPos_.size(); ++j) {
+            snprintf(b, sizeof(b), "key%zu->a%d ", j, static_cast<int>(map_->fileNoByKey(keyOf(static_cast<int>(j)))));
+            out += b;
+        }
+        for (int f = 0; f < n_; ++f) {
+            const Ipc::StoreMapAnchor &a = map_->peekAtEntry(f);
+            if (a.empty() && !a.lock.readers && !a.lock.writing) continue;
+            snprintf(b, sizeof(b), "| a%d: R%u%s%s ver=%ld start=%d sp=%d%s ", f, static_cast<unsigned>(a.lock.readers), a.lock.writing ? "W" : "",
+                     a.lock.appending ? "A" : "", static_cast<long>(a.basics.timestamp), static_cast<int>(a.start), static_cast<int>(a.splicingPoint),
+                     a.waitingToBeFreed ? " MARKED" : "");
+            out += b;
+        }
+        s_->trace("state: %s", out.c_str());
     }
 
     void afterStep(int) override {}
